@@ -440,6 +440,7 @@ class Gen:
             elif cmd == "constraints":
                 # //@ constraints <file> <Struct> [method:<name> ...]
                 src = Source.get(os.path.join(self.root, toks[0]))
+                self._freefns = [t.split(":", 1)[1] for t in toks[2:] if t.startswith("fn:")]
                 self._emit_constraints(src, toks[1], [t.split(":", 1)[1] for t in toks[2:] if t.startswith("method:")])
             elif cmd == "item":
                 src = Source.get(os.path.join(self.root, toks[0]))
@@ -579,9 +580,14 @@ class Gen:
             x = re.sub(r"(?<![\w.])(\w+)\.(\w+)\(([^()]*)\)", meth, x)
             x = re.sub(r"(?<![\w.])(\w+)\.(?!skey\(\)|data\.)(\w+)\b(?!\()", lambda m: f"a.{m.group(1)}.data.{m.group(2)}" if m.group(1) in fnames else m.group(0), x)
             x = re.sub(r"\[(\w+) as usize\]", r"[\1 as int]", x)
+            # K7: a whitelisted free function `f(args)` of the crate -> f_spec(args) (the real f is extracted and proved equal to f_spec)
+            for ff in getattr(self, "_freefns", []):
+                x = re.sub(r"(?<![\w.])" + re.escape(ff) + r"\(", ff + "_spec(", x)
             # anything left that is a call other than skey() / *_spec(..), or a bare identifier that is neither a parameter nor a literal: untranslatable
             chk = re.sub(r"a\.\w+\.s(key|owner)\(\)", "K", x)
             chk = re.sub(r"a\.\w+\.data\.\w+_spec\(", "K(", chk)
+            for ff in getattr(self, "_freefns", []):
+                chk = re.sub(r"(?<![\w.])" + re.escape(ff) + r"_spec\(", "K(", chk)
             chk = re.sub(r"a\.\w+\.data(\.\w+|\[\w+ as int\])+", "K", chk)
             for idm in re.finditer(r"(?<![\w.])([A-Za-z_]\w*)\b", chk):
                 w = idm.group(1)
